@@ -131,6 +131,8 @@ def h_net_new(w, st, rec):
     pgraph, pdata = dec(rec["graph"]), [dec(d) for d in rec["data"]]       # the checker's private copy
     if rec.get("shared_upstream"):
         w.probes["data.environments_share_upstream_columns"] += 1
+    if rec.get("retry"):
+        w.probes["construction.retried_after_a_failed_attempt"] += 1
     kind = rec.get("invalid")
     site = "DRFNet.__init__"
     if kind:
@@ -990,6 +992,8 @@ def generate(run_seed, deep=False):
     cfg["deep"] = bool(deep) and st["deep"].random() < 0.5
     if bool(deep) and st["deep"].random() < 0.004:
         return cfg, generate_giant(st["deep"], cfg)
+    if not deep and st["giantq"].random() < 0.003:        # the quick tier too, one run in about 330
+        return cfg, generate_giant(st["giantq"], cfg)
     if cfg["deep"] and not cfg["big"]:      # thorough tier: longer histories, up to three networks
         cfg["length"] = st["deep"].randint(30, 70)
         cfg["nets"] = st["deep"].randint(1, 3)
@@ -1080,6 +1084,7 @@ def generate(run_seed, deep=False):
     G.bitgen_variation(st["bitgen"], ops)
     G.generator_seed_variation(st["genseed"], ops, lambda r: r.get("op") == "net.sample" and not r.get("invalid"))
     np_star_faults(st["np_star"], ops)
+    retry_failed_constructions(st["retry"], ops, cfg)
     return cfg, ops
 
 
@@ -1166,8 +1171,33 @@ def np_star_faults(f, ops):
         i += 1
 
 
+def retry_failed_constructions(f, ops, cfg):
+    """What an application does after a construction failed (R error during a fit, allocation failure, Ctrl-C): it
+    tries again with the same arguments.  Half of the failing constructions of a history are followed - at once, or a
+    few operations later - by the identical construction without the fault, and by samples from the network it
+    returns: whatever the failed attempt left behind (module-level caches, half-registered forests) must not reach
+    it.  Decided by a stream of its own, after generation."""
+    i, nretry = 0, 0
+    while i < len(ops):
+        rec = ops[i]
+        r, gap, seed, n = f.random(), f.choice([0, 0, 1, 3]), f.choice([0, 1, f.getrandbits(32), None]), f.choice([None, f.randint(1, 30)])
+        i += 1
+        if rec.get("op") != "net.new" or rec.get("invalid") or not (rec.get("peer_fault") or rec.get("arm")) \
+                or cfg.get("big") or cfg.get("giant") or r >= 0.5 or nretry >= 3:
+            continue
+        nretry += 1
+        again = copy.deepcopy(rec)
+        again.pop("peer_fault", None)
+        again.pop("arm", None)
+        again["id"] = "%s.retry%d" % (rec["id"], nretry)
+        again["retry"] = True
+        at = min(len(ops), i + gap)
+        new = [again] + [{"c": rec.get("c", 0), "op": "net.sample", "net": again["id"], "n": n, "seed": seed} for _ in range(2)]
+        ops[at:at] = new
+
+
 def generate_giant(g, cfg):
-    """Thorough tier only, one run in about 250: one environment with thousands of rows and a request
+    """One run in about 250 (thorough tier) / 330 (quick tier): one environment with thousands of rows and a request
     of thousands of rows (n * N just above 10**7), beyond the block / batch sizes a wrapper may use."""
     cfg["giant"] = True
     N = g.choice([2100, 2600])
@@ -1177,6 +1207,13 @@ def generate_giant(g, cfg):
     graph[0, p - 1] = 1
     if p == 3 and g.random() < 0.5:
         graph[1, 2] = 1
+    if g.random() < 0.5:
+        # two or three variables that have parents (a chain, or a chain and a second child of the first source)
+        p = g.choice([3, 4])
+        graph = np.zeros((p, p))
+        graph[0, 1] = graph[1, 2] = 1
+        if p == 4:
+            graph[g.choice([0, 2]), 3] = 1
     data = []
     for k, Nk in enumerate([g.randint(20, 40), N]):
         rows = list(range(Nk))
@@ -1222,7 +1259,7 @@ REQUIRED_PROBES = ["sources>=2.independence_checkable", "sources>=2.functional_d
                    "data.dtype:<f4"] + \
                   ["invalid:" + k for k in sorted(INVALID_NEW)] + ["invalid:" + k for k in sorted(INVALID_N)]
 
-REQUIRED_PROBES = REQUIRED_PROBES + ["thread.calls_outside_main_thread", "fault.died_in_a_numpy_call(np.*)", "sweep.np_star_positions", "construction_died_in_a_numpy_call", "data.environments_share_upstream_columns", "net.dropped", "seed.given_as_Generator", "consecutive_unseeded_samples.draws_compared", "rows_with_equal_parents.order_checkable"]
+REQUIRED_PROBES = REQUIRED_PROBES + ["thread.calls_outside_main_thread", "fault.died_in_a_numpy_call(np.*)", "sweep.np_star_positions", "construction_died_in_a_numpy_call", "data.environments_share_upstream_columns", "net.dropped", "seed.given_as_Generator", "consecutive_unseeded_samples.draws_compared", "rows_with_equal_parents.order_checkable", "construction.retried_after_a_failed_attempt"]
 
 
 def simplify(op):
